@@ -73,6 +73,9 @@ from decimal import Decimal
 LEAVES = [1, 0, True, None, 'a', 'xyz', 7, -3, b'ab', E1('boom'), 10 ** 20, (), 'k', Fraction(1, 3), Fraction(3, 10), Decimal('2.665'), 1.26 + 0j]
 
 
+SUBDICT = [False]
+
+
 def gen_value(r, depth=0):
     c = r.random()
     if depth > 3 or c < .38: return gen_float(r) if r.random() < .6 else r.choice([1.25, 2.5, 0.125, 3.14159, 2.675, 1e-7, 123456.789, 1.0, -1.5, 0.5, 1.5])
@@ -89,7 +92,11 @@ def gen_value(r, depth=0):
         except TypeError: return tuple(elems)
     # (dict keys are inserted in a shuffled order: rounding must keep every value under its own key)
     if c < .96:
-        items = [('k%d' % i, e) for i, e in enumerate(elems)]; r.shuffle(items); return dict(items)
+        items = [('k%d' % i, e) for i, e in enumerate(elems)]; r.shuffle(items)
+        if SUBDICT[0] and r.random() < .4:
+            import collections
+            return collections.defaultdict(int, items) if r.random() < .5 else collections.OrderedDict(items)
+        return dict(items)
     if c < .985:
         items = [(i, e) for i, e in enumerate(elems)]; r.shuffle(items); return dict(items)
     return range(r.randrange(4))
@@ -154,9 +161,12 @@ def struct_job(a):
     for ci in range(60):
         try:
             I = VI()
+            tol = r.choice(TOLS); deep = r.random() < .5
+            # (dict subclasses - defaultdict, OrderedDict - only where the rounding rebuilds every dict it meets: the rebuilt value is a plain dict
+            #  on both sides then; elsewhere the model, which has one dict type, could not name what comes back unchanged)
+            SUBDICT[0] = bool(deep and tol is not None)
             nargs = r.choice([0, 1, 2, 3]); args = [gen_value(r, 0 if r.random() < .6 else 3) for _ in range(nargs)]
             kw = dict(('p%d' % i, gen_value(r, 0 if r.random() < .6 else 3)) for i in range(r.choice([0, 0, 1, 2])))
-            tol = r.choice(TOLS); deep = r.random() < .5
             dec = (deep_round if deep else simple_round)(tol)
             got = {}
             @dec
@@ -305,8 +315,19 @@ def cache_job(a):
                             viol.append(dict(prop='C12', sig=dict(kind='function-saw-rounded-arguments', dec='klepto.keygen'),
                                              msg='klepto.keygen(tol=%r).call(): the function received %r instead of the original %r' % (tol, (sx, sy, srest, skw), (args, kw))))
                     before = set(f.__cache__())
-                    f(*args, **kw)
+                    ret = f(*args, **kw)
                     cache = f.__cache__()
+                    # C18: lookup() of the call just made returns its result - whatever the spelling, with the same rounding as the call
+                    if nm != 'no_cache':
+                        try:
+                            lv = f.lookup(*args, **kw)
+                            if lv != ret:
+                                viol.append(dict(prop='C18', sig=dict(kind='lookup-differs-from-the-call', dec='%s.%s' % (mod, nm), tol=tol is not None),
+                                                 msg='%s.%s(tol=%r, deep=%r, %s): the call %r %r returned %r, lookup of the same call %r' % (mod, nm, tol, deep, kmk, args, kw, ret, lv)))
+                        except Exception as e:
+                            viol.append(dict(prop='C18', sig=dict(kind='lookup-misses-the-resident-call', dec='%s.%s' % (mod, nm), tol=tol is not None, exc=type(e).__name__),
+                                             msg='%s.%s(tol=%r, deep=%r, %s): the call %r %r was just made and is resident, lookup of the same call raised %s: %s' % (
+                                                 mod, nm, tol, deep, kmk, args, kw, type(e).__name__, str(e)[:60])))
                     added = set(cache) - before
                     if nm != 'no_cache' and added and kk not in added:
                         viol.append(dict(prop='C18', sig=dict(kind='key-not-the-slot', dec='%s.%s' % (mod, nm), tol=tol is not None, added=True),
@@ -396,6 +417,39 @@ def cache_job(a):
     return out
 
 
+def soak_job(a):
+    """rounding is a function of (tol, arguments): ONE rounding decorator in a long-lived process, after hundreds of roundings - many of
+    which raised (arguments it cannot rebuild, F16b) or went deep - rounds like a fresh one"""
+    tier, k = a
+    from klepto.rounding import deep_round, simple_round
+    out = []
+    try:
+        for deep in (True, False):
+            dec = (deep_round if deep else simple_round)(1)
+            got = {}
+            @dec
+            def probe(*a_, **k_): got['a'], got['k'] = a_, k_; return 0
+            nested = 1.26
+            for _ in range(40): nested = [nested]
+            for i in range(1500):
+                try: probe(range(3), [1.26, range(2)]) if i % 2 else probe(nested, x=(1.26, {'k': 1.31}))
+                except Exception: pass
+            viol = []
+            for args, kw in (([1.26, [1.34, (2.55,)]], {'p': 1.26}), ([{'a': 1.26}], {}), ([1.04], {'q': [1.26]})):
+                try: probe(*args, **kw); impl = ('ok', canon(list(got['a'])), canon(got['k']))
+                except Exception as e: impl = ('exc', type(e).__name__)
+                orc = ('ok', canon([oracle(x, 1, deep) for x in args]), canon(dict((n, oracle(x, 1, deep)) for n, x in kw.items())))
+                if impl != orc:
+                    viol.append(dict(prop='C12', sig=dict(kind='rounding-depends-on-history', deep=deep),
+                                     msg='%s(tol=1) after 1500 earlier roundings through the same decorator: args %r kwds %r -> %.200r, a fresh decorator gives %.200r' % (
+                                         'deep_round' if deep else 'simple_round', args, kw, impl, orc)))
+                    break
+            out.append(dict(cfg=dict(soak=True, deep=deep), viol=viol, n=1503))
+    except Exception:
+        out.append(dict(err=traceback.format_exc()[-800:]))
+    return out
+
+
 # ------------------------------------------------------------------ interface
 def explore(prop, tier, seedoff=0):
     t0 = time.time()
@@ -403,6 +457,7 @@ def explore(prop, tier, seedoff=0):
         sc = p.map(scalar_job, [(tier, seedoff + i) for i in range(NSCALAR[tier] // 400)])
         st = p.map(struct_job, [(tier, seedoff + i) for i in range(NCASES[tier] // 60)])
         ca = p.map(cache_job, [(tier, seedoff + i) for i in range(max(12, NCASES[tier] // 100))])
+        ca += p.map(soak_job, [(tier, 0)])
     divs, viols, errors = [], [], []
     tags = collections.Counter()
     # (a) pyRound vs CPython
